@@ -105,8 +105,25 @@ class PP:
         for n in names:
             lines.append(self.define(n, names))
         text = []
+        # an invocation whose '(' and first argument tokens come from another macro's body, continued in the source,
+        # with a macro in the same argument that expands to tokens containing a comma
+        opens = []
+        plain = [n for n in names if self.macros[n][0] == 'func' and self.macros[n][1] >= 1 and not self.macros[n][2] and not any(m[3] for m in self.macros.values())]
+        if plain and r.random() < 0.5:
+            for k in range(r.randrange(1, 3)):
+                f = r.choice(plain)
+                lines.append('#define OP%d %s%s( %s' % (k, f, r.choice(['', ' ']), ' '.join(r.choice(['0', '+', 'a', 'x1', '(b)']) for _ in range(r.randrange(0, 3)))))
+                lines.append('#define CM%d %s , %s' % (k, r.choice(['7', 'a', '(1)']), r.choice(['8', 'b', 'c d'])))
+                opens.append((k, f))
         for _ in range(r.randrange(3, 20)):
             k = r.random()
+            if opens and k < 0.15:
+                i, f = r.choice(opens)
+                if f in self.macros and self.macros[f][0] == 'func':
+                    np = self.macros[f][1]
+                    rest = ''.join(' , ' + r.choice(['3', 'y', 'CM%d' % i, '(CM%d)' % i]) for _ in range(np - 1))
+                    text.append('OP%d %s CM%d %s%s ) ;' % (i, r.choice(['', '1 +', 'z']), i, r.choice(['', '- 2']), rest))
+                continue
             if k < 0.6:
                 text.append(self.invoke(r.choice(names), 2, names))
             elif k < 0.7:
@@ -136,6 +153,8 @@ REDEF = [
     ('#define A(x, ...) x', '#define A(x) x', False), ('#define A x', '#define A x /* c */', True), ('#define A x y', '#define A x /* c */ y', True), ('#define A x y', '#define A x/**/y', True),
     ('#define A "s"', "#define A 's'", False), ('#define A 1', '#define A 1u', False), ('#define A a b', '#define A a  b', True), ('#define A', '#define A', True), ('#define A', '#define A ', True),
     ('#define A', '#define A x', False), ('#define A (x)', '#define A(x)', False), ('#define A(x) (x)', '#define A(x) ( x )', False), ('#define A(x) x', '#define A(x)  x', True),
+    ('#define A(a, b) a - b', '#define A(b, a) a - b', False), ('#define A(a, b) a - b', '#define A(b, a) b - a', False), ('#define A(a, b) b', '#define A(a, c) b', False),
+    ('#define A(a, b) a', '#define A(a, b, ...) a', False), ('#define A(a, ...) a', '#define A(b, ...) a', False),
     ('#define A ab', '#define A a b', False), ('#define A a\\\nb', '#define A ab', True), ('#define A +', '#define A + ', True), ('#define A . .', '#define A ..', False),
 ]
 
